@@ -1702,13 +1702,19 @@ class CodeGenerator(NodeVisitor):
         val = node.as_const(frame.eval_ctx)
         if isinstance(val, float):
             if isfinite(val):
-                self.write(str(val))
+                text = str(val)
             else:
                 # inf and nan have no literal spelling, str() would name
                 # an undefined variable in the generated code
-                self.write(f"float({str(val)!r})")
+                text = f"float({str(val)!r})"
         else:
-            self.write(repr(val))
+            text = repr(val)
+
+        # a folded negative number must stay one operand: -1 ** x is -(1 ** x)
+        if text.startswith("-"):
+            text = f"({text})"
+
+        self.write(text)
 
     def visit_TemplateData(self, node: nodes.TemplateData, frame: Frame) -> None:
         try:
